@@ -5,6 +5,8 @@
 V=$(dirname "$(readlink -f "$0")")
 export GOFLAGS=-mod=mod GOPROXY=off GOSUMDB=off GOTOOLCHAIN=local
 export CARGO_NET_OFFLINE=true PIP_NO_INDEX=1
+REPO=${VERIF_REPO:-/repo}   # the tree under test (default /repo; a scratch worktree for seeded-change runs)
+export VERIF_REPO="$REPO"
 ID="$1"
 [ -n "$ID" ] || { echo "usage: check.sh <ID> [--tier quick|thorough] [--replay file]" >&2; exit 2; }
 W=$V/.work/$$
@@ -16,7 +18,7 @@ hooks_entries() {
   sep=""
   for f in $V/hooks/*_zz_verif.go; do
     pkg=$(basename "$f" _zz_verif.go)
-    if [ "$pkg" = root ]; then dst=/repo/zz_verif.go; else dst=/repo/$pkg/zz_verif.go; fi
+    if [ "$pkg" = root ]; then dst=$REPO/zz_verif.go; else dst=$REPO/$pkg/zz_verif.go; fi
     printf '%s"%s":"%s"' "$sep" "$dst" "$f"
     sep=","
   done
@@ -26,11 +28,16 @@ OVERLAY="$W/overlay.json"
 TAGS=verif
 
 cd $V/harness || exit 2
+MODFLAG=""
+if [ "$REPO" != /repo ]; then
+  sed "s|=> /repo|=> $REPO|" go.mod > "$W/go.mod"; [ -f go.sum ] && cp go.sum "$W/go.sum"
+  MODFLAG="-modfile=$W/go.mod"
+fi
 if [ "$ID" = C16 ]; then
   # engine S: mechanically rewritten copies of the current /repo sources
   [ -x $V/bin/instrument ] || go build -o $V/bin/instrument ./cmd/instrument || { echo "CHECK-BROKEN: cannot build the instrumenter" >&2; exit 2; }
   mkdir -p "$W/inst"
-  if ! $V/bin/instrument -repo /repo -out "$W/inst" > "$W/inst.map" 2> "$W/inst.err"; then
+  if ! $V/bin/instrument -repo "$REPO" -out "$W/inst" > "$W/inst.map" 2> "$W/inst.err"; then
     cat "$W/inst.err" >&2
     echo "CHECK-BROKEN: instrumenter failed on the current /repo sources" >&2
     exit 2
@@ -41,7 +48,7 @@ if [ "$ID" = C16 ]; then
     printf '}}\n'
   } > "$W/overlay_s.json"
   # free-running pass: un-instrumented sources under the race detector
-  if ! go build -race -tags verif -overlay "$W/overlay.json" -o "$W/racepass" ./cmd/racepass 2> "$W/build.err"; then
+  if ! go build $MODFLAG -race -tags verif -overlay "$W/overlay.json" -o "$W/racepass" ./cmd/racepass 2> "$W/build.err"; then
     cat "$W/build.err" >&2
     echo "CHECK-BROKEN: build of the race pass against /repo failed" >&2
     exit 2
@@ -50,9 +57,9 @@ if [ "$ID" = C16 ]; then
   OVERLAY="$W/overlay_s.json"
   TAGS="verif verifsched"
 fi
-if ! go build -tags "$TAGS" -overlay "$OVERLAY" -o "$W/explorer" ./cmd/explorer 2> "$W/build.err"; then
+if ! go build $MODFLAG -tags "$TAGS" -overlay "$OVERLAY" -o "$W/explorer" ./cmd/explorer 2> "$W/build.err"; then
   cat "$W/build.err" >&2
   echo "CHECK-BROKEN: build of the explorer against /repo failed" >&2
   exit 2
 fi
-VERIF_DIR="$V" VERIF_WORK="$W" "$W/explorer" "$@"
+VERIF_DIR="${VERIF_OUT:-$V}" VERIF_WORK="$W" "$W/explorer" "$@"
